@@ -150,6 +150,7 @@ func runHarness(p *Program, name string, o RunOpts) *HarnessResult {
 	}
 	t0 := time.Now()
 	var mu sync.Mutex
+	found := &sync.Map{}
 	var queue [][]Decision
 	outstanding := 0
 	cond := sync.NewCond(&mu)
@@ -212,6 +213,7 @@ func runHarness(p *Program, name string, o RunOpts) *HarnessResult {
 				ex.wantWitness = len(res.Witnesses) < o.witnesses
 				mu.Unlock()
 				ex.fixed = o.fixed
+				ex.foundLabels = found
 				end := ex.runPath(fn)
 				mu.Lock()
 				if ex.witness != nil && len(res.Witnesses) < o.witnesses {
